@@ -214,10 +214,17 @@ def run_case(kind, grid, li, quad, ei, rel):
             k = rel[1]
             d = dsm_impl.driver_series("pos" if kind == "inflow" else "hump", n, extra)
             a = run(d)
-            for alt in ("plus", "zero"):
-                d2 = {key: (v if key[0] <= k else (v * 2.0 + 5.0 if alt == "plus" else 0.0)) for key, v in d.items()}
-                b = run(d2)
-                scale = max(dsm_impl.scale_of(a, grid), dsm_impl.scale_of(b, grid))
+            for alt in ("plus", "zero", "nan", "inf"):
+                # (later driver values larger, zero, missing = NaN, infinite)
+                if alt in ("nan", "inf") and kind == "stock-lapack":
+                    continue  # scipy's triangular solver refuses non-finite right-hand sides outright
+                later = {"plus": None, "zero": 0.0, "nan": float("nan"), "inf": float("inf")}[alt]
+                d2 = {key: (v if key[0] <= k else (v * 2.0 + 5.0 if alt == "plus" else later)) for key, v in d.items()}
+                import numpy as _np
+
+                with _np.errstate(all="ignore"):
+                    b = run(d2)
+                scale = max(dsm_impl.scale_of(a, grid), dsm_impl.scale_of(b, grid)) if alt in ("plus", "zero") else dsm_impl.scale_of(a, grid)
                 if not scale < 1e12:
                     continue
                 dd = diff(a, b, scale * 1e-5, upto=k)  # results up to k must be (numerically) identical
